@@ -781,7 +781,43 @@ func CheckStress(p SPlan) ([]evid.Violation, int, int) {
 				case 6: // proxied bidi stream, optionally with the client or the backend failing first
 					n := 1 + next(4)
 					failAt := -1
-					mode := next(4) // 0,1 = clean; 2 = backend fails first; 3 = client body fails first
+					mode := next(5) // 0,1 = clean; 2 = backend fails first; 3 = client body fails first; 4 = as 2, over a gzip-compressed HTTP/JSON upload
+					if mode == 4 {
+						// the backend fails on the last message of the first gzip member while the client is
+						// still (slowly) uploading a second one: the proxy's request pump is then parked inside
+						// the decompressor when the handler returns - it must stay this call's decompressor
+						faults.Add(1)
+						var js bytes.Buffer
+						for seq := 0; seq < n; seq++ {
+							m := payload(w, id, seq, []int{0, 10, 64, 700}[next(4)])
+							if seq == n-1 {
+								m.Set(m.Descriptor().Fields().ByName("f_int32"), protoreflect.ValueOfInt32(999))
+							}
+							b, _ := protojson.Marshal(m)
+							js.Write(b)
+						}
+						tail, _ := protojson.Marshal(payload(w, id, n, 10))
+						hdr := http.Header{"Content-Type": {"application/json"}, "Content-Encoding": {"gzip"}}
+						body := io.MultiReader(bytes.NewReader(drive.Gzip(js.Bytes())), &slowReader{data: drive.Gzip(bytes.Repeat(tail, 3)), delay: time.Duration(50+next(400)) * time.Microsecond})
+						res := drive.Serve(mux, drive.Request("POST", "/un.SvcS/Chat", "", hdr, body, -1))
+						if res.Panic != nil {
+							report("panic in proxied gzip upload: %v", res.Panic)
+							break
+						}
+						split := newJSONSplitter(res.Rec.Body.Bytes())
+						for seq := 0; seq < n-1; seq++ {
+							raw, ok := split()
+							r := dynamicpb.NewMessage(w.MsgDesc("un.All"))
+							if !ok || protojson.Unmarshal(raw, r) != nil {
+								report("proxied gzip upload %d: reply %d of %d missing or undecodable (status %d, body %q)", id, seq, n-1, res.Rec.Code, trunc(res.Rec.Body.Bytes()))
+								break
+							}
+							if mid, mseq, verr := verify(r); verr != nil || mid != id || mseq != seq {
+								report("proxied gzip upload %d reply %d verifies as (%d,%d,%v)", id, seq, mid, mseq, verr)
+							}
+						}
+						break
+					}
 					var body bytes.Buffer
 					for seq := 0; seq < n; seq++ {
 						m := payload(w, id, seq, []int{0, 10, 64, 700, 5000}[next(5)])
